@@ -429,24 +429,27 @@ def execute(case):
             out.fault("drop_reference")
             hist.log.add("drop", idx, c)
         elif kind == "recycle":
-            # every class object is dropped for good (handles, class cache, gc) and the classes are
-            # created again in another order: the new objects tend to be allocated where the old
-            # ones were, so anything remembered per object identity is now attached to the wrong class
-            old_ids = {id(h) for h in handles if h is not None}
+            # Class objects are created, used, dropped for good (handles, class cache, gc) and
+            # created again by exactly the same code path: the allocator then hands the freed
+            # blocks to the new objects (in another order), so anything remembered per object
+            # identity is now attached to another class.  Variant stale_after_clear: the class
+            # cache is cleared while the old objects are still held and go one level deeper
+            # (they re-register whatever is kept per object), and only then are they dropped.
+            for ci in range(len(handles)):
+                handles[ci] = None
+            pm.Av.clear_cache()
+            gc.collect()
+            first = [common.mk_av(c["basis"], "list") for c in classes]
+            old_ids = {id(h) for h in first}
+            for ci, h in enumerate(first):
+                avops.run_query(h, {"op": "count", "n": min(op["n"], classes[ci]["nmax"])})
             if op.get("mode") == "stale_after_clear":
-                # the class cache is cleared while the handles live on and go one level deeper
-                # (whatever is remembered per object is registered again); only then are the
-                # handles dropped - without another clear
                 pm.Av.clear_cache()
-                for ci, h in enumerate(handles):
-                    if h is not None:
-                        d = _depth(h) or 1
-                        avops.run_query(h, {"op": "count", "n": min(d, classes[ci]["nmax"])})
-                for ci in range(len(handles)):
-                    handles[ci] = None
+                for ci, h in enumerate(first):
+                    avops.run_query(h, {"op": "count", "n": min(op["n"] + 1, classes[ci]["nmax"])})
+                del first, h
             else:
-                for ci in range(len(handles)):
-                    handles[ci] = None
+                del first, h
                 pm.Av.clear_cache()
             gc.collect()
             epoch["clear"] += 1
@@ -459,11 +462,14 @@ def execute(case):
             out.fault("recycle_class_objects")
             hist.log.add("recycle", idx)
             for ci in order:
-                qop = {"op": "count", "n": min(op["n"], classes[ci]["nmax"])}
-                resp = avops.run_query(handles[ci], qop)
-                bad = avops.check_query(refs[ci], qop, resp, classes[ci]["ref_max"])
-                if bad:
-                    hist.violate(bad[0], dict(traits[ci], **dict(bad[1], after="recycle")), f"after recycling the class objects, {qop} on class {ci}: {bad[2]}")
+                for n in sorted({min(op["n"], classes[ci]["nmax"]), min(op["n"] + 1, classes[ci]["nmax"])}):
+                    qop = {"op": "count", "n": n}
+                    resp = avops.run_query(handles[ci], qop)
+                    bad = avops.check_query(refs[ci], qop, resp, classes[ci]["ref_max"])
+                    if bad:
+                        hist.violate(bad[0], dict(traits[ci], **dict(bad[1], after="recycle")), f"after recycling the class objects, {qop} on class {ci}: {bad[2]}")
+                        break
+                if hist.violations:
                     break
         elif kind == "gc":
             gc.collect()
